@@ -805,7 +805,14 @@ class Engine:
         if z3.is_app(o) and o.decl().name() == 'Obj' and z3.is_int_value(o.arg(1)) and o.arg(1).as_long() < 0:
             key = (o.arg(1).as_long(), attr)
             if key not in st.inited and attr not in st.fields:
-                return st.copy(inited=st.inited | {key}).assume(z3.Select(field0(attr), o) == val)
+                # fact on the initial array (for specification functions) AND a store (so that reads simplify to the value)
+                f = dict(st.fields)
+                f[attr] = z3.Store(field0(attr), o, val)
+                return st.copy(inited=st.inited | {key}, fields=f).assume(z3.Select(field0(attr), o) == val)
+            if key not in st.inited and self.only_fresh_stores(st.fields[attr], attr):
+                f = dict(st.fields)
+                f[attr] = z3.Store(st.fields[attr], o, val)
+                return st.copy(inited=st.inited | {key}, fields=f).assume(z3.Select(field0(attr), o) == val)
         arr = st.fields.get(attr, field0(attr))
         f = dict(st.fields)
         f[attr] = z3.Store(arr, obj, val)
@@ -913,6 +920,8 @@ class Engine:
         n = self.iter_len(desc, st)
         R = fresh('comp', VL)
         env0 = st.env
+        capture = getattr(self, 'capture_exc', False)
+        comp_all = (getattr(self.contract, 'comp_all', None) or {}).get(self.comp_ordinal(e)) if self.contract else None
         effect = getattr(self.contract, 'comp_effects', {}).get(self.comp_ordinal(e)) if self.contract else None
         pre_state = st
         if effect is not None:
@@ -933,8 +942,12 @@ class Engine:
             res = []
             for (s2, v) in en.ev(e.elt, inner):
                 if isinstance(v, Raise):
-                    continue            # raising elements are accounted for when the comprehension is built
+                    if not capture:
+                        continue        # raising elements are accounted for when the comprehension is built
+                    v = v.exc           # gather(return_exceptions=True): the exception is the element
                 t, s2 = en.term(v, s2)
+                if effect is not None:
+                    s2 = s2.copy(fields=s.fields, ghost=s.ghost)     # effects were summarised by the effect invariant
                 res.append(s2.copy(env=s.env, heap=s.heap).assume(nth(R, k) == t))
             return res
         # evaluate the element once for an arbitrary index: raising paths make the comprehension raise
@@ -949,20 +962,44 @@ class Engine:
         inner = self.bind_target(g.target, x, gen)
         any_ok = False
         for (s2, v) in self.ev(e.elt, inner):
+            if isinstance(v, Raise) and capture:
+                v = v.exc
             if isinstance(v, Raise):
                 out.append((s2.copy(env=st.env), v))
             else:
                 any_ok = True
+                if comp_all is not None:
+                    t, s2 = self.term(v, s2)
+                    for (fl, ps) in comp_all:
+                        self.oblige(s2, f"comp{self.comp_ordinal(e)}:element:{fl.name}", fl.pred(t, *ps))
                 if effect is not None:
                     effect.step(self, s2, k0)      # obligation inv(k0+1)
                 elif not self.only_fresh_writes(s2, inner, watermark):
                     raise OutOfSubset("comprehension element writes pre-existing object state (needs comp_effects in the contract)")
         if any_ok or True:
             s = st.assume(length(R) == n, n >= 0)
+            if comp_all is not None:
+                # map rule: the element expression satisfies P at an arbitrary index, hence every element of the result does
+                s = s.assume(*[fl(R, *ps) for (fl, ps) in comp_all])
             if effect is not None:
                 s = effect.exit(self, s, n)
             out.append((s, PyMapped(V.List(R), n, elem)))
         return out
+
+    def only_fresh_stores(self, arr, attr):
+        """the array is the initial one updated only at freshly allocated objects (prophecy-initialised), so the initial array
+        still describes every other object and facts about it stay valid"""
+        cur = arr
+        while True:
+            if cur.eq(field0(attr)):
+                return True
+            if z3.is_app(cur) and cur.decl().kind() == z3.Z3_OP_STORE:
+                obj = z3.simplify(cur.arg(1))
+                if not (z3.is_app(obj) and obj.decl().name() == 'Obj' and z3.is_int_value(obj.arg(1)) and obj.arg(1).as_long() < 0):
+                    return False
+                cur = cur.arg(0)
+                continue
+            return False
 
     def only_fresh_writes(self, after, before, watermark):
         """every attribute store made between `before` and `after` targets an object allocated after `watermark`"""
@@ -1185,6 +1222,18 @@ class Engine:
         if isinstance(fn, ast.Attribute) and isinstance(fn.value, ast.Call) and isinstance(fn.value.func, ast.Name) and fn.value.func.id == 'super':
             return self.super_call(e, st)
         out = []
+        is_gather = (isinstance(fn, ast.Attribute) and fn.attr == 'gather') or (isinstance(fn, ast.Name) and fn.id == 'gather')
+        if is_gather and any(k.arg == 'return_exceptions' and isinstance(k.value, ast.Constant) and k.value.value is True for k in e.keywords):
+            # gather(..., return_exceptions=True): an awaitable that raises contributes its exception as a value (assumed contract)
+            saved = getattr(self, 'capture_exc', False)
+            self.capture_exc = True
+            try:
+                states = list(self.ev_args(e, st, out))
+            finally:
+                self.capture_exc = saved
+            for (s1, a, kw) in states:
+                out += BUILTINS['gather'](self, s1, a, kw)
+            return out
         if isinstance(fn, ast.Attribute) and fn.attr in MUTATORS and isinstance(fn.value, ast.Attribute):
             # obj.attr.append(x): in-place mutation of a container held in an attribute
             for (s0, o) in self.ev(fn.value.value, st):
@@ -1976,6 +2025,40 @@ class ItemRef:
     """d.setdefault(k, default): handle on the value stored under k in container `owner`"""
     def __init__(self, owner, key, value):
         self.owner, self.key, self.value = owner, key, value
+
+
+class CompEffect:
+    """effect invariant of a comprehension whose element expression writes object state (same rule as a loop invariant)"""
+    def __init__(self, inv, modifies_fields):
+        self._inv, self.modifies_fields = inv, modifies_fields
+
+    def _clauses(self, en, st, k, st0):
+        r = self._inv(en, st, k, st0)
+        return list(r.items()) if isinstance(r, dict) else [('inv', r)]
+
+    def enter(self, en, st, n):
+        self.st0 = st
+        for nm, g in self._clauses(en, st, z3.IntVal(0), st):
+            en.oblige(st, f"comp:effect:init:{nm}", g)
+        return st
+
+    def _havoc(self, en, st):
+        fields = dict(st.fields)
+        for a in self.modifies_fields:
+            fields[a] = z3.Array(f"attr:{a}!{next(VAL._fresh)}", V, V)
+        return st.copy(fields=fields)
+
+    def at(self, en, st, k):
+        h = self._havoc(en, st)
+        return h.assume(*[g for _, g in self._clauses(en, h, k, self.st0)])
+
+    def step(self, en, st, k):
+        for nm, g in self._clauses(en, st, k + 1, self.st0):
+            en.oblige(st, f"comp:effect:preserve:{nm}", g)
+
+    def exit(self, en, st, n):
+        h = self._havoc(en, st)
+        return h.assume(*[g for _, g in self._clauses(en, h, n, self.st0)])
 
 
 class LoopContract:
